@@ -229,8 +229,12 @@ def report(res, cfg, nondefault, desc, payload):
                           "the -2 tag of a defaulted Any/Xor is an attribute of a node with a generated id; an identical plain Any elsewhere in the model can shadow it in flatten(), default_prio_vector is then -1 on the non-default branch")
         res.count("known_finding_witnessed")
         return
+    if isinstance(payload, dict) and RECENT:
+        # what the process converted before (most recent last): a replay converts them first, in that order
+        payload = dict(payload, earlier_configurators_in_this_process=[json.loads(json.dumps(a)) for a in RECENT[-4:-1]])
     res.violation("oracle", desc, payload)
 
+RECENT = []
 WITNESS = {"k": "Stingy", "id": "cfg", "ch": [
     {"k": "Imply", "id": "B", "ch": [{"k": "str", "id": "t"}, {"k": "Any", "id": None, "ch": [{"k": "str", "id": "c"}, {"k": "str", "id": "d"}]}]},
     {"k": "CcAny", "id": "Z", "default": ["a"], "ch": [{"k": "str", "id": "a"}, {"k": "str", "id": "c"}, {"k": "str", "id": "d"}]},
@@ -365,6 +369,18 @@ def run(res, tier, seed):
             res.count("build_error:" + type(e).__name__)
             continue
         done += 1
+        RECENT.append(strip(ast)); del RECENT[:-5]
+        if not corpus and rng.random() < 0.4:
+            # the next configurator is this one with a defaulted cc.Any written by hand without its default
+            # (plain Any(default, Any(rest)) under the same id): equal text, ids, values and bounds - other default priorities
+            tw = json.loads(json.dumps(strip(ast)))
+            for k_, r_ in enumerate(tw.get("ch", [])):
+                if r_["k"] == "CcAny" and r_.get("default") and all(c["k"] in ("str", "var") for c in r_["ch"]) and len(r_["ch"]) >= 2 \
+                        and r_["default"][0] in [c["id"] for c in r_["ch"]]:
+                    d0 = r_["default"][0]
+                    tw["ch"][k_] = {"k": "Any", "ch": [{"k": "str", "id": d0}, {"k": "Any", "ch": [c for c in r_["ch"] if c["id"] != d0], "id": None}], "id": r_.get("id")}
+                    corpus.append(tw); res.count("followed_by_its_untagged_twin")
+                    break
         nd = nondefault_columns(ast, cfg)
         if MISSING:
             report(res, cfg, nd, f"defaulted rule(s) {MISSING[:3]} of {cfg!r} have a default among several alternatives but no sub-proposition for the non-default branch: "
@@ -472,6 +488,11 @@ def escalate(res, ast_j, rng):
 
 def replay(payload):
     r = payload.get("replay", payload)
+    for e in r.get("earlier_configurators_in_this_process", []):
+        try:
+            c0 = build_tracked(json.loads(json.dumps(e))); c0.ge_polyhedron; list(c0.select({}, solver=Recorder()))
+        except BaseException:
+            pass
     ast = json.loads(json.dumps(r["cfg"]))
     cfg = build_tracked(ast)
     nd = nondefault_columns(ast, cfg)
